@@ -623,7 +623,7 @@ int __wrap_open(const char* path, int flags, ...) {
     va_end(va);
   }
   if (path && !strcmp(path, "/dev/urandom")) {
-    vsim::ev("open.urandom");
+    // opened once per process by a function-local static of the code under test: not an event of a run
     return URANDOM_FD;
   }
   if (!is_sim_path(path)) return __real_open(path, flags, mode);
